@@ -182,6 +182,9 @@ func verifC12(sameSecond bool) {
 				}
 			}
 			zz.Assert(df != nil && df.snap, "C12/delete/only-well-formed-snapshots-of-this-database")
+			// C15's last clause seen from its main consumer: a name of another database
+			// (also one whose name merely starts with ours) is never taken for one of ours
+			zz.Assert(df != nil, "C15/cleaner/names-of-other-databases-never-taken-for-ours")
 			if df == nil || !df.snap {
 				continue
 			}
@@ -204,6 +207,8 @@ func verifC12(sameSecond bool) {
 				zz.Assert(now[run]-df.ts > int64(stale), "C12/delete/newest-only-if-instance-silent-long-enough")
 				ct, ok := committed[df.inst]
 				zz.Assert(ok && df.ts <= ct, "C12/delete/newest-only-if-merged-and-republished")
+				// C05's glue: the only legal way the cleaner removes an instance's newest snapshot
+				zz.Assert(ok && df.ts <= ct && now[run]-df.ts > int64(stale), "C05/cleaner/newest-snapshot-removed-only-when-merged-republished-and-stale")
 			}
 			// a superseded snapshot may go: a newer one of its instance is listed, and whether
 			// that one may go too is judged by the rule for the newest snapshot above
@@ -244,4 +249,23 @@ func VerifC12Disabled() {
 	}
 	zz.Assert(b.lists == 0 && len(b.deleted) == 0 && b.stores == 0, "C12/disabled/no-list-store-delete")
 	zz.Reach("C12/disabled/done")
+}
+
+// VerifC17CleanerState: the commit notification crosses goroutines (sync loop -> cleaner): the
+// cleaner keeps its own copy, so later unlocked writes of the sync loop to its map are not
+// visible through the cleaner's locked accessors (no state shared outside the lock).
+func VerifC17CleanerState() {
+	lg := logrus.New()
+	lg.SetLevel(logrus.PanicLevel)
+	w := New("db", &vBucket{}, config.Cleanup{Enabled: true}, lg)
+	t1 := time.Unix(0, zz.NondetI64("t1"))
+	t2 := time.Unix(0, zz.NondetI64("t2"))
+	zz.Assume(!t1.Equal(t2) && !t2.IsZero())
+	m := map[string]time.Time{"a": t1}
+	w.SetCommitted(m)
+	m["a"] = t2 // LoadOnce records a later merge in the sync loop's private map
+	m["b"] = t2
+	zz.Assert(w.GetCommitted("a").Equal(t1), "C17/cleaner/committed-state-not-shared-with-the-sync-loop")
+	zz.Assert(w.GetCommitted("b").IsZero(), "C17/cleaner/committed-state-not-shared-with-the-sync-loop")
+	zz.Reach("C17/cleaner/done")
 }
